@@ -92,8 +92,8 @@ func (c *check) Init(tier string, seed int64) engine.Space {
 			"properties": pnames, "carrier_kinds": ks, "selectors": ss,
 			"instances_pair_menu": n, "instances_triple_menu": r,
 			"multi_match_selector_lists": "the selector lists after #z,T are instantiated for the ua, user, style, nest& and nestrel carriers (triples: style only)",
-			"importance":   []string{"normal", "!important (except UA sheet and hints)"},
-			"arrangements": variantName, "hints": []string{"on", "off"}, "device_media": []string{"print", "screen (pairs with hints on only)"},
+			"importance":                 []string{"normal", "!important (except UA sheet and hints)"},
+			"arrangements":               variantName, "hints": []string{"on", "off"}, "device_media": []string{"print", "screen (pairs with hints on only)"},
 			"list_length": map[string]int{"quick": 2, "thorough": 3},
 		},
 		Assumptions: []string{
@@ -102,7 +102,7 @@ func (c *check) Init(tier string, seed int64) engine.Space {
 			"a declaration written after a nested rule is only required to be ordered in one of the two ways the CSS Nesting drafts define",
 			"triples containing no presentational hint are explored with hints on only (hints off changes nothing for them but the absence of the hints sheet, which the pair space covers)",
 		},
-		BudgetS: map[string]float64{"quick": 90, "thorough": 900}[tier],
+		BudgetS: map[string]float64{"quick": 200, "thorough": 1200}[tier],
 	}
 }
 
